@@ -22,14 +22,16 @@ func init() {
 			"R2 the exact key is (Header.ApplicationID, Header.CommandCode, CommandFlags&0x80==0x80) and the name key is the dictionary short name + \"R\" on the request edge and + \"A\" otherwise; " +
 			"R3 Handle/HandleIdx update the maps unconditionally (no existence test) under the exclusive mux lock, storing the given handler, with \"ALL\" mapped to the catch-all index; " +
 			"R4 FindCommand retries with application 0 on a miss. " +
+			"R5 (*ServeMux).Error reaches the send of its report on every path, and the channel it sends on is a mux field that every constructor of a ServeMux makes with capacity >= 1 (so the report of an unmatched message is kept for a later reader). " +
 			"This is a complete static decision of the precedence clause over all registration subsets; the dictionary's content (which short name a command has) is data and not decided.",
 		Rules: map[string]string{
 			"R1": "decision table of ServeDIAM = reference list for all 32 lookup-outcome assignments",
 			"R2": "key construction: exact index from header fields; name = Short + R/A by the request bit",
 			"R3": "registration overwrites unconditionally under the write lock; ALL → catch-all index",
 			"R4": "FindCommand base-application fallback",
+			"R5": "the Error effect is an offered report: Error sends on every path, on a channel every constructor made with room",
 		},
-		MinInstances: map[string]int{"R1": 32, "R2": 2, "R3": 2, "R4": 1},
+		MinInstances: map[string]int{"R1": 32, "R2": 2, "R3": 2, "R4": 1, "R5": 2},
 		Assumptions:  []string{"Go map semantics: a comma-ok lookup hits iff the key was stored; repeated lookups of one key on one path agree (the read lock is held throughout)"},
 	})
 }
@@ -250,6 +252,113 @@ func runC09(c *Ctx) {
 			}
 		}
 		r.Check(good, "R4", fname(fc)+":base-fallback", c.fpos(fc), "second lookup with application 0 on the miss edge of the first", "FindCommand does not fall back to the base application: messages of applications that reuse base commands are dispatched as unknown")
+	}
+	// ---- R5: the "Error" effect of R1 is an offered report ----
+	c.c09ErrorOffers()
+}
+
+// c09ErrorOffers: (*ServeMux).Error offers its argument on the mux's report channel on every path (a select with
+// a default may drop it when the buffer is full, nothing else may), and every constructor of a ServeMux makes
+// that channel with room for at least one report (a send on a nil or unbuffered channel under select/default
+// is dropped when nobody is receiving at that instant).
+func (c *Ctx) c09ErrorOffers() {
+	r := c.R
+	ef := c.P.Method("diam", "ServeMux", "Error")
+	if ef == nil || len(ef.Params) < 2 {
+		r.Undecided("R5", "role:ServeMux.Error", "-", "(*ServeMux).Error not found")
+		return
+	}
+	// the offer: a select state or a send whose value is the report parameter
+	var offer ssa.Instruction
+	var ch ssa.Value
+	offers := map[ssa.Instruction]bool{}
+	flow.Instrs(ef, func(in ssa.Instruction) {
+		switch x := in.(type) {
+		case *ssa.Select:
+			for _, st := range x.States {
+				if st.Dir == types.SendOnly && flow.Peel(st.Send) == ssa.Value(ef.Params[1]) {
+					offer, ch = x, st.Chan
+					offers[x] = true
+				}
+			}
+		case *ssa.Send:
+			if flow.Peel(x.X) == ssa.Value(ef.Params[1]) {
+				offer, ch = x, x.Chan
+				offers[x] = true
+			}
+		}
+	})
+	key := fname(ef) + ":offers-on-every-path"
+	if offer == nil {
+		r.Fail("R5", key, c.fpos(ef), "Error never sends the report it is given on a channel: unmatched messages are dropped without a report")
+		return
+	}
+	entry := ef.Blocks[0].Instrs[0]
+	if p := flow.PathAvoiding(ef, entry, flow.IsExit, func(in ssa.Instruction) bool { return offers[in] }); p != nil && !offers[entry] {
+		r.Fail("R5", key, c.pos(p[len(p)-1]), "Error can return without offering the report on the channel: an unmatched message then leaves no trace", c.witness(p)...)
+	} else {
+		r.Ok("R5", key, c.pos(offer), "every path through Error reaches the send of the report")
+	}
+	// the channel is a field of the mux, made with capacity >= 1 by every constructor
+	tn, fld, _, ok := flow.FieldOf(flow.Peel(ch))
+	if !ok || tn != "ServeMux" {
+		for _, src := range flow.SpillSources(ch) {
+			if t2, f2, _, ok2 := flow.FieldOf(flow.Peel(src)); ok2 && t2 == "ServeMux" {
+				tn, fld, ok = t2, f2, true
+			}
+		}
+	}
+	key = "ServeMux:report-channel-made-with-room"
+	if !ok || tn != "ServeMux" {
+		r.Undecided("R5", key, c.pos(offer), "the channel Error sends on is not a field of the mux")
+		return
+	}
+	nCtor, bad := 0, ""
+	var at ssa.Instruction
+	for _, f := range c.P.LibraryFuncs() {
+		if pkgOf(f).Path() != pkgDiam {
+			continue
+		}
+		flow.Instrs(f, func(in ssa.Instruction) {
+			al, isAl := in.(*ssa.Alloc)
+			if !isAl || !flow.TypeIs(al.Type(), pkgDiam, "ServeMux") {
+				return
+			}
+			if _, isPtrPtr := al.Type().Underlying().(*types.Pointer).Elem().Underlying().(*types.Pointer); isPtrPtr {
+				return
+			}
+			nCtor++
+			made := false
+			for _, ref := range flow.Referrers(al) {
+				fa, isFA := ref.(*ssa.FieldAddr)
+				if !isFA {
+					continue
+				}
+				if _, f2, _, ok2 := flow.FieldOf(fa); !ok2 || f2 != fld {
+					continue
+				}
+				for _, r2 := range flow.Referrers(fa) {
+					if st, isSt := r2.(*ssa.Store); isSt && st.Addr == ssa.Value(fa) {
+						if mk, isMk := flow.Peel(st.Val).(*ssa.MakeChan); isMk {
+							if k, isK := flow.ConstInt(mk.Size); isK && k >= 1 {
+								made = true
+							}
+						}
+					}
+				}
+			}
+			if !made {
+				bad, at = fname(f), al
+			}
+		})
+	}
+	switch {
+	case nCtor == 0:
+		r.Undecided("R5", key, "-", "no function of package diam allocates a ServeMux")
+	case bad != "":
+		r.Fail("R5", key, c.pos(at), bad+" builds a ServeMux without making its report channel with room for a report: until something else makes the channel, Error's non-blocking send finds no buffer and no receiver and the report of an unmatched message is lost")
+	default:
+		r.Ok("R5", key, "-", fmt.Sprintf("%d constructor(s) make the report channel with capacity >= 1", nCtor))
 	}
 }
 
